@@ -150,3 +150,24 @@ Proof. vm_compute. reflexivity. Qed.
 
 Example C09_ex_from_i16 : from_prim 16 8 5 false (-2) = Ret [254; 255; 255; 255; 255].
 Proof. vm_compute. reflexivity. Qed.
+(* ---- tie to the source: the loops cast_up<M> / cast_down<M> of /repo/src/buint/cast.rs (behind `CastFrom<$BUint<M>> for
+   $BUint<N>` and its signed variants) REGENERATED on every run (Generated/Loops.v, tools/rs2v_loops.py; control-flow
+   vocabulary Model/Imp.v) compute exactly the model's functions under the call-site conditions (cast_up: target longer than
+   the source; cast_down: not longer), with an iteration budget of at least the number of copied digits: they neither panic
+   (no index out of bounds, `M - N` and `i - (M - N)` do not underflow) nor run out of budget.  as_buint! (`impl CastFrom<$ty> for $BUint<N>`, $ty = every primitive integer
+   type, pb = <$ty>::BITS, the source handled as its value) computes exactly the model's U_from_int for a budget >= N. ---- *)
+From Bnum.Model Require Import Imp.
+From Bnum.Generated Require Import Loops.
+From Bnum.Proofs Require Import LoopsTieC09.
+Theorem C09_loops_rs_match_model w :
+  (forall n m a d fuel, length a = n -> (n < m)%nat -> (n <= fuel)%nat ->
+     Loops.cast_up w (Z.of_nat n) fuel (Z.of_nat m) a d =
+     match Cast.cast_up a m d with Ret r => Done r | Panic => Panicked end) /\
+  (forall n m a fuel, length a = n -> (m <= n)%nat -> (m <= fuel)%nat ->
+     Loops.cast_down w (Z.of_nat n) fuel (Z.of_nat m) a =
+     match Cast.cast_down a m with Ret r => Done r | Panic => Panicked end) /\
+  (forall n pb from fuel, (n <= fuel)%nat ->
+     Loops.as_buint w (Z.of_nat n) fuel pb from =
+     match Cast.U_from_int pb w n from with Ret r => Done r | Panic => Panicked end).
+Proof. exact (loops_C09_match_model w). Qed.
+Print Assumptions C09_loops_rs_match_model.
